@@ -512,7 +512,11 @@ fn parse_token(
                     Some(group_index) => group_index == left_index,
                 };
 
-                let stop = my_priority < their_priority || my_priority == their_priority && right_to_left;
+                // a suffix operation is complete, nothing can be nested under it from the right
+                // a tighter operator following it takes the whole suffix operation as its left instead
+                let is_complete_suffix = n.secondary_definition == SecondaryDefinition::UnarySuffix && n.right.is_none();
+
+                let stop = (my_priority < their_priority || my_priority == their_priority && right_to_left) && !is_complete_suffix;
 
                 // need to find node with higher priority and stop before it
                 if stop || is_our_group {
